@@ -174,6 +174,7 @@ DEFOP(pop) {
     int kind = (int)((uint64_t)st.A(1) % 6);  // add remove replace test copy move
     uint64_t tweak = (uint64_t)st.A(5);
     // a document that contains reference nodes is only read: a patch must not write into memory the document borrows
+    if (w.pending_slot < 0 || !w.slots[w.pending_slot]) { w.drop_pending(); w.noop(st, "document gone"); return; }
     if (has_ref_nodes(w.slots[w.pending_slot])) { kind = 3; w.stats.probes["patch_on_document_with_references"]++; }
     Rng vr((uint64_t)st.A(4));
     GenOpts go = profile_opts(3); go.max_depth = 2;
